@@ -7,6 +7,12 @@ HERE = os.path.dirname(os.path.dirname(os.path.abspath(__file__)))
 
 # id -> (built?, technique, level text, level note, design ref)
 CHECKS = {
+ "C17": (True, "exhaustive enumeration of a serde type family (13 wrapper shapes x 26 leaf types, compiled) x small value domains against an independent reference Serializer",
+         "Every Wrapper<Leaf> instantiation spanning every Serializer/Deserializer method and all four serde enum representations plus flatten is serialised with the bridge: the bytes must be one well-formed item equal to the preferred serialisation produced by an independent reference Serializer of the documented representation; deserialising (as produced, with a trailing byte, with each head widened, with indefinite top-level containers and unknown extra struct fields) must return an equal value, consume exactly the item and re-serialise identically.",
+         "trusted: serde_family::refser (reference Serializer), serde itself; char / unit under internally tagged, untagged and flatten recorded as known findings", "5/C17"),
+ "C18": (True, "exhaustive enumeration of shared-data-model types x values x re-framings, differential between the native codec and the serde bridge",
+         "For 31 types of the shared data model and every small-domain value: native Encode and the bridge produce identical bytes; every re-framing with up to two wider heads must decode to the same value on both sides; for every indefinite-container / chunked-string re-framing each side returns that value or an error, never another value.",
+         "trusted: equality of Rust values (PartialEq); NaN excluded from the float domains", "5/C18"),
  "C08": (True, "exhaustive enumeration of a compiled schema grammar (programs) x values against an interpreter of the documented wire format",
          "About 1000 (quick) type definitions covering index sets with gaps and permutations, array/map at type, enum and variant level, tags at every level, every field type (borrowed, bytes, nested, generic, custom nil-aware codecs, indefinite-array types), transparent, skip, index_only and 23/24/25 fields are compiled with the real derive macros; for every presence combination and boundary value the bytes must equal the preferred serialisation of the documented format computed by a schema interpreter that never sees names, declaration order or n/b.",
          "trusted: refmodel::schema::schema_encode (written from minicbor-derive's 'CBOR encoding' documentation); the generator and the interpreter share one schema value", "5/C08"),
